@@ -213,15 +213,16 @@ class UpnpProfileDevice:
         return service.state_variable(state_variable_name)
 
     def _action(self, service_name: str, action_name: str) -> Optional[UpnpAction]:
-        """Check if service has action."""
-        service = self._service(service_name)
-        if not service:
+        """Get action from the first offered service of the alias which has it."""
+        if not self.profile_device:
             return None
 
-        if not service.has_action(action_name):
-            return None
+        for service_type in self._SERVICE_TYPES.get(service_name, ()):
+            service = self.profile_device.find_service(service_type)
+            if service and service.has_action(action_name):
+                return service.action(action_name)
 
-        return service.action(action_name)
+        return None
 
     def _interesting_service(self, service: UpnpService) -> bool:
         """Check if service is a service we're interested in."""
